@@ -721,3 +721,32 @@ func (e *Engine) pkgOf(path string) *types.Package {
 	}
 	return nil
 }
+
+// backendError: the SSA value is (an interface wrapping of) an error result of
+// a store / Lightning call.
+func (e *Engine) backendError(v ssa.Value, depth int) bool {
+	if depth > 4 {
+		return false
+	}
+	switch x := v.(type) {
+	case *ssa.MakeInterface:
+		return e.backendError(x.X, depth+1)
+	case *ssa.ChangeInterface:
+		return e.backendError(x.X, depth+1)
+	case *ssa.Extract:
+		if c, ok := x.Tuple.(*ssa.Call); ok {
+			key, _, _ := calleeKey(&c.Call)
+			return e.atomicAction(key)
+		}
+	case *ssa.Call:
+		key, _, _ := calleeKey(&x.Call)
+		return e.atomicAction(key)
+	case *ssa.Phi:
+		for _, ed := range x.Edges {
+			if e.backendError(ed, depth+1) {
+				return true
+			}
+		}
+	}
+	return false
+}
